@@ -14,7 +14,11 @@ def get_kernel(backend: str, cross: bool, order: int):
         src = core
     kind = "win_only" if order == -1 else ("detrend0" if order == 0 else "poly")
     name = f"_stats_{kind}_{'csd' if cross else 'auto'}{sfx}"
-    fn = getattr(src, name)
+    fn = getattr(src, name, None)
+    if fn is None or (kind == "poly" and not hasattr(core, "_build_Q")):
+        # the kernel is not available under its usual name (internal reorganisation): evaluate the same statistics
+        # through the public API instead - a one-bin plan from a user-supplied scheduler and a user-supplied window
+        return _public_path(backend, cross, order)
 
     if kind == "poly":
         qcache = {}
@@ -65,3 +69,25 @@ def omegas(L):
         if not any(abs(w - o) < 1e-12 for o in out):
             out.append(w)
     return out
+
+
+def _public_path(backend, cross, order):
+    from speckit.analysis import SpectrumAnalyzer
+
+    def call(x, y, starts, L, win, omega, **kw):
+        fs = 1.0
+        f = float(omega) / (2 * np.pi) * fs
+        starts = np.asarray(starts, dtype=np.int64)
+        w_ = np.asarray(win, dtype=np.float64)
+
+        def plan_fn(**k):
+            return {"f": np.array([f]), "r": np.array([fs / L]), "b": np.array([f * L / fs]), "L": np.array([L]), "K": np.array([starts.size]),
+                    "navg": np.array([starts.size]), "D": [starts.copy()], "O": np.zeros(1), "nf": 1}
+
+        data = np.asarray(x, dtype=np.float64) if not cross else np.stack([x, y])
+        r = SpectrumAnalyzer(data, fs, win=lambda n: w_.copy(), order=order, olap=0.0, scheduler=plan_fn, backend=backend).compute()
+        XY = complex(np.asarray(r.XY)[0])
+        return (float(r.XX[0]), float(r.YY[0]) if cross else float(r.XX[0]), XY.real, XY.imag if cross else 0.0, float(r.M2[0]))
+
+    call.__name__ = f"public_path_{backend}_{'csd' if cross else 'auto'}_{order}"
+    return call
